@@ -641,6 +641,7 @@ SCOPE = {
     "Ptr": "the byte-level KanalPtr model over the size dispatch regenerated from the current source (every size of T, by size class)",
     "Traits": "the Send/Sync derivation model over the struct fields and unsafe impls regenerated from the current source",
     "Deadline": "the clock model of wait_timeout (Deadline.v)",
+    "Vec": "the caller's vector in drain_into (Vec.v: checked usize arithmetic of the reserve hint, pushes under any allocator growth policy; every vector, every channel state)",
 }
 TIES = {
     "h1": "H1 differential of random + corpus call histories against the real crate",
@@ -657,7 +658,7 @@ MODELS_OF = {
     "C11": (["Atomic"], ["h1", "h2"]), "C12": (["Atomic"], ["h1", "h2"]),
     "C13": (["Atomic", "Sig", "Deadline"], ["kx", "h1", "h2"]), "C14": (["Atomic", "Lock", "Mutex"], ["kx", "h1", "h2"]),
     "C15": (["Atomic", "Sig"], ["h1", "h2"]), "C16": (["Atomic"], ["h1", "h2"]),
-    "C17": (["Mutex"], ["kx", "h2"]), "C18": (["Atomic"], ["h1"]), "C19": (["Atomic", "Lock"], ["kx", "h1", "h2"]),
+    "C17": (["Mutex"], ["kx", "h2"]), "C18": (["Atomic"], ["h1"]), "C19": (["Atomic", "Vec", "Lock"], ["kx", "h1", "h2"]),
     "C20": (["Traits"], ["kx", "rustc"]),
 }
 
@@ -677,7 +678,8 @@ def default_technique(pid, thms):
         short = {"Atomic": "induction over executions of the Atomic model", "Sig": "reflexive closure of the finite signal-protocol state space",
                  "Mutex": "invariant of the lock model", "Lock": "proved-sound abstract interpretation of regenerated lock-discipline automata",
                  "Reduce": "lock-reduction (serialisation) theorem", "Ptr": "case analysis on the size class over the regenerated dispatch",
-                 "Traits": "case analysis of the trait-derivation model", "Deadline": "clock model of the timed wait"}
+                 "Traits": "case analysis of the trait-derivation model", "Deadline": "clock model of the timed wait",
+                 "Vec": "induction over the pushes of the vector model, any allocator growth policy"}
         tie = {"h1": "H1 model/implementation differential", "h2": "H2 scheduled executions judged by the extracted models",
                "kx": "translator-regenerated facts re-checked by coqc", "rustc": "rustc verdict comparison"}
         return "Coq proof (%s); tie: %s" % ("; ".join(short[m] for m in ms), ", ".join(tie[t] for t in ts))
